@@ -103,6 +103,11 @@ def run_shard(spec, rep):
             rep.violation("class-invariant 0<=p<=1", case, {"error": str(e)})
         except Exception as e:  # the conversion must not raise on valid input
             rep.violation("conversion raised on a valid fraction", case, {"error": repr(e)})
+        # the same Composition OBJECT converted for a second mixture, and again after its fraction was reassigned
+        try:
+            _same_object_history(rep, case, mix, rng, Composition, CompositionType)
+        except InvBroken as e:
+            rep.violation("class-invariant 0<=p<=1", case, {"error": str(e)})
         # constructor rejection
         for bad in (float("nan"), float("inf"), float("-inf"), -1e-300, 1 + EPS, -rng.random() - 1e-9, 1 + rng.random() + 1e-9):
             for typ in (CompositionType.weight, CompositionType.molar):
@@ -118,6 +123,21 @@ def run_shard(spec, rep):
     rep.count("invariant_evaluations", inv_state["evals"])
     if inv_state["evals"] == 0:
         rep.mark_inconclusive("Composition invariant was never evaluated")
+
+
+def _same_object_history(rep, case, mix, rng, Composition, CompositionType):
+    other = gen.synth_mixture(rng)
+    other.first_component.molecular_weight = gen.loguniform(rng, 2, 500)
+    other.second_component.molecular_weight = gen.loguniform(rng, 2, 500)
+    for typ, conv, exact in ((CompositionType.weight, "to_molar", _exact_molar), (CompositionType.molar, "to_weight", _exact_weight)):
+        c = Composition(p=rng.uniform(0.05, 0.95), type=typ)
+        for step, mx in enumerate((mix, other, mix)):
+            if step == 2:
+                c.p = rng.uniform(0.05, 0.95)  # the object is an ordinary mutable value holder
+            got = getattr(c, conv)(mx).p
+            ex = exact(c.p, mx.first_component.molecular_weight, mx.second_component.molecular_weight)
+            rep.check("one Composition object, several mixtures / reassigned fraction: every conversion is the exact image",
+                      abs(Fraction(got) - ex), 8 * EPS * ex, dict(case, conversion=conv, step=step), {"p": c.p, "got": got, "exact": float(ex)})
 
 
 def _one_group(rep, case, mix, m1, m2, cond, ps, Composition, CompositionType):
